@@ -34,6 +34,12 @@ that poll (`r` ready, `p` pending, `e` error). A handle is *ready* (`hready`) ex
 answered `Ready` and it has not been called since. `polls` is ghost: every poll of a handle with the number of calls
 really running, the limit, the inner answer and the limiter's answer.
 
+**An inner service whose `call()` itself panics** (`arrive … callpanic=1`, on a fresh clone, a checked clone or a
+persistent handle): `call()` has done `in_flight += 1` and built the guard when `inner.call(req)` unwinds; the unwind
+runs the guard's destructor (`in_flight -= 1`) and leaves `call()`: no future is returned, no inner call was started,
+the `current_limit` mirror is not touched (that code comes after `inner.call`), the algorithm gets no feedback. The
+readiness of the clone / handle is used up like by any `call` (`panicCall`).
+
 **Clones on several OS threads** (`manual thread t=<i> prog=…`, `manual sched s=<tid,…>`): the second half of this file
 is the interleaving model of `call()` / the completion block / the guard at the granularity of the hooked atomic
 operations (`in_flight.fetch_add` at admission, `fetch_sub` when the guard is dropped, the loads of `poll_ready`, the
@@ -124,6 +130,7 @@ inductive Op
   | arriveH (c : Nat) (sc : Step) (keep : Bool) (h : Nat) (a : Ans)   -- `arrive c … h=<h>`: the caller uses handle `h`
   | thread (t : Nat) (prog : List TOp)
   | sched (s : List Nat)
+  | arriveX (c : Nat) (sc : Step) (h : Nat) (a : Ans)   -- `arrive c … callpanic=1 [h=<h>]`: the inner `call()` itself panics
 deriving Repr
 
 def emit (s : State) (evs : List Ev) : State := { s with log := s.log ++ evs }
@@ -246,6 +253,31 @@ def arriveHandle (s : State) (c : Nat) (sc : Step) (h : Nat) (a : Ans) : State :
   if (lookup s.hready h).isSome then callHandle s c sc h
   else if answerOf s a = .ready then callHandle (pollHandle s h a) c sc h
   else refuseWith (pollHandle s h a) c sc (refusalOf (answerOf s a))
+
+/-! ## an inner service whose `call()` itself panics -/
+
+/-- `call()` up to the guard: the counter goes up, the `InFlightGuard` exists -/
+def enterCall (s : State) : State := { s with inFlight := s.inFlight + 1 }
+
+/-- the unwind out of `call()` runs the guard's destructor -/
+def unwindCall (s : State) : State := { s with inFlight := s.inFlight - 1 }
+
+/-- `call()` whose `inner.call(req)` panics: counter up, guard, unwind (guard dropped: counter down) — no inner call, no
+future (so the caller is never *running*), no mirror update, no feedback; the caller sees the panic -/
+def panicCall (s : State) (c : Nat) (sc : Step) : State :=
+  emit { unwindCall (enterCall s) with script := (c, sc) :: s.script } [.result c .panic]
+
+/-- the same through the persistent handle `h`: `call` if the handle is ready, otherwise one `poll_ready` first; the call
+uses the readiness up although it unwinds -/
+def arriveHandleX (s : State) (c : Nat) (sc : Step) (h : Nat) (a : Ans) : State :=
+  if (lookup s.hready h).isSome then panicCall { s with hready := eraseKey s.hready h } c sc
+  else if answerOf s a = .ready then
+    panicCall { pollHandle s h a with hready := eraseKey (pollHandle s h a).hready h } c sc
+  else refuseWith (pollHandle s h a) c sc (refusalOf (answerOf s a))
+
+/-- clone, `poll_ready`, `call` (which unwinds) -/
+def arriveFreshX (s : State) (c : Nat) (sc : Step) : State :=
+  if atCapacity s then refuse (recordCheck s c) c sc else panicCall (recordCheck s c) c sc
 
 /-! ## clones of the service on several threads — one model step per yield point
 
@@ -466,6 +498,11 @@ def stepS (cfg : Cfg) (s : State) (op : Op) : State :=
       else arriveHandle (noteKeep s c keep) c sc h a
   | .thread t prog => { s with progs := setProgT s.progs t prog }
   | .sched sch => schedOp cfg s sch
+  | .arriveX c sc h a =>
+      if known s c then s
+      else if c ∈ s.checked then panicCall { s with checked := s.checked.erase c } c sc
+      else if h = 0 then arriveFreshX s c sc
+      else arriveHandleX s c sc h a
 
 def init (cfg : Cfg) : State := { alg := Limit.initCells cfg, cur := (Limit.initCells cfg).limit }
 def run (cfg : Cfg) (ops : List Op) : State := ops.foldl (stepS cfg) (init cfg)
@@ -492,7 +529,9 @@ def parseOp (ws : List String) : Option Op :=
   | "arrive" :: c :: rest =>
       let kv := parseKv rest
       let plan := planOf kv
-      if kv.nat "h" 0 = 0 then
+      if kv.nat "callpanic" 0 = 1 then
+        some (.arriveX (c.toNat?.getD 0) (plan.headD { lat := 0, out := .ok }) (kv.nat "h" 0) (parseAns (kv.str "rdy" "r")))
+      else if kv.nat "h" 0 = 0 then
         some (.arrive (c.toNat?.getD 0) (plan.headD { lat := 0, out := .ok }) (kv.nat "keep" 0 == 1))
       else
         some (.arriveH (c.toNat?.getD 0) (plan.headD { lat := 0, out := .ok }) (kv.nat "keep" 0 == 1)
